@@ -1137,6 +1137,11 @@ func (c *contextWriter) RequiredGas(input []byte) uint64 {
 }
 
 func (c *contextWriter) Run(ctx context.Context, input []byte) ([]byte, error) {
+	if c.ctx == nil {
+		// only a direct CALL carries the caller context the write is attributed to
+		return nil, errors.New("context write requires a direct call")
+	}
+
 	if input == nil || len(input) < 128 {
 		return nil, nil
 	}
